@@ -28,6 +28,11 @@
 #include <opm/input/eclipse/Schedule/ScheduleState.hpp>
 #include <opm/input/eclipse/Schedule/SummaryState.hpp>
 #include <opm/input/eclipse/Schedule/UDQ/UDQState.hpp>
+#include <opm/input/eclipse/Schedule/UDQ/UDQConfig.hpp>
+#include <opm/input/eclipse/Schedule/MSW/SegmentMatcher.hpp>
+#include <opm/input/eclipse/Schedule/Well/WellMatcher.hpp>
+#include <opm/input/eclipse/EclipseState/Grid/RegionSetMatcher.hpp>
+#include <opm/input/eclipse/EclipseState/Grid/FIPRegionStatistics.hpp>
 #include <opm/input/eclipse/Schedule/UDQ/UDQSet.hpp>
 #include <opm/input/eclipse/Schedule/Action/State.hpp>
 #include <opm/input/eclipse/Schedule/Action/ActionX.hpp>
@@ -109,6 +114,29 @@ static std::string querySchedule(const Schedule& s) {
         o << "udq: ";
         for (const auto& d : udq.definitions()) o << "D " << d.keyword() << "=" << d.input_string() << ";";
         for (const auto& a : udq.assignments()) o << "A " << a.keyword() << ";";
+        // what the expressions evaluate to (operator== of the expression tree does not look at every member, e.g. the sign of a node)
+        if (udq.size() > 0) {
+            g_phase = "Schedule:query:udq-eval";
+            SummaryState ust(TimeService::from_time_t(s.getStartTime()), 0.0);
+            UDQState ustate(udq.params().undefinedValue());
+            double seedv = 1.0;
+            for (const auto& wn : s.wellNames(k)) for (const char* v : {"WOPR", "WWPR", "WGPR", "WBHP", "WOPT"}) { ust.update_well_var(wn, v, seedv); seedv = seedv * 1.37 + 0.61; }
+            for (const auto& gn : s.groupNames(k)) for (const char* v : {"GOPR", "GWPR", "GGPR"}) { ust.update_group_var(gn, v, seedv); seedv = seedv * 1.21 + 0.3; }
+            for (const char* v : {"FOPR", "FWPR", "FGPR", "FOPT", "FWIR"}) { ust.update(v, seedv); seedv = seedv * 1.11 + 0.7; }
+            try {
+                auto segF = [&]() { return std::make_unique<SegmentMatcher>(ss); };
+                auto regF = []() { return std::make_unique<RegionSetMatcher>(FIPRegionStatistics{}); };
+                udq.eval(k, s.wellMatcher(k), segF, regF, ust, ustate);
+                o << " eval:";
+                for (const auto& d : udq.definitions()) {
+                    const auto& key = d.keyword();
+                    if (key[0] == 'W') { for (const auto& wn : s.wellNames(k)) if (ust.has_well_var(wn, key)) o << key << ":" << wn << "=" << hexd(ust.get_well_var(wn, key)) << ","; }
+                    else if (key[0] == 'G') { for (const auto& gn : s.groupNames(k)) if (ust.has_group_var(gn, key)) o << key << ":" << gn << "=" << hexd(ust.get_group_var(gn, key)) << ","; }
+                    else if (ust.has(key)) o << key << "=" << hexd(ust.get(key)) << ",";
+                }
+            } catch (const std::exception& e) { o << " eval-throws"; }
+            g_phase = "Schedule:query:state";
+        }
         o << "\nactions: ";
         for (const auto& a : ss.actions.get()) { o << a.name() << " max=" << a.max_run() << " wait=" << hexd(a.min_wait()) << " start=" << a.start_time() << " cond=["; for (auto& c : a.conditions()) o << c.cmp_string << "|"; o << "] kw=["; for (const auto& kw : a) o << kw.name() << ","; o << "];"; }
         o << "\nwlists: ";
